@@ -15,6 +15,8 @@ func (V *Verifier) runExtra(spec *propSpec, name string, res *checkResult) {
 	switch {
 	case strings.HasPrefix(name, "frame:write:"):
 		V.extraWriteFrame(spec, strings.Split(strings.TrimPrefix(name, "frame:write:"), ","), res)
+	case name == "table:peg":
+		V.extraPegTable(spec, res)
 	case name == "read:no-struct-content":
 		V.extraNoStructContent(spec, res)
 	case name == "read:selector-type":
@@ -256,4 +258,22 @@ func onlyFeedsErrorf(v ssa.Value) bool {
 		}
 	}
 	return true
+}
+
+// extraPegTable (C20): one obligation per table node, action body, parameter
+// list and trampoline of grammar.go against grammar.peg.
+func (V *Verifier) extraPegTable(spec *propSpec, res *checkResult) {
+	fs, stats, err := validateGrammar(V.P.RepoDir)
+	if err != nil {
+		res.extraObls = append(res.extraObls, decided("grammar#table:readable", "table", false, "cannot read grammar.peg / grammar.go: "+err.Error(), token.NoPos))
+		return
+	}
+	for _, f := range fs {
+		o := decided("grammar#"+f.name, "table", f.ok, f.note, token.NoPos)
+		o.Res.Solver = "bxv-table-evaluator"
+		res.extraObls = append(res.extraObls, o)
+	}
+	res.bounded["programs"] = 1
+	res.bounded["disagreements_checked"] = len(fs)
+	res.bounded["table"] = stats
 }
